@@ -259,21 +259,28 @@ func init() {
 
 	plans["C11"] = Plan{
 		Quick: []Job{
-			{H: "H_C11_Promise", K: 34, U: 3, Covers: 1, TimeoutSec: 900},
+			{H: "H_C11_Promise_Await", K: 34, U: 3},
+			{H: "H_C11_Promise_ErrCh", K: 34, U: 3},
+			{H: "H_C11_Promise_CancelCh", K: 34, U: 3, Covers: 1},
 			{H: "H_C11_CanceledResult", K: 30, U: 6, Spin: true},
-			{H: "H_C11_Container", K: 34, U: 4, Spin: true, Covers: 2, TimeoutSec: 900},
+			{H: "H_C11_Container", K: 34, U: 4, Spin: true, Preempt: 2, Covers: 2, TimeoutSec: 900},
 		},
-		Bounds:  "Promise: 2 concurrent SetResult (value, error incl. context.Canceled) and 3 awaiters (Await / AwaitWithErrCh / AwaitWithCancelCh, one cancellable at any moment); PromiseContainer: a result whose error is context.Canceled awaited through each of the 3 flavours (busy loop = unwinding failure of the await loop at U=6); awaiter concurrent with SetPromise / SetPromise(nil) / SetResult and the resolution of the contained promise; K<=34",
+		Thorough: []Job{
+			{H: "H_C11_Container", K: 34, U: 4, Spin: true, TimeoutSec: 3000, QueryMs: 2400000},
+			{H: "H_C11_Promise", K: 34, U: 3, Preempt: 2, TimeoutSec: 3000, QueryMs: 2400000},
+		},
+		Bounds:  "Promise: 2 concurrent SetResult (value, error incl. context.Canceled) and one awaiter of each flavour in turn (Await / AwaitWithErrCh / AwaitWithCancelCh cancellable at any moment; thorough: all three awaiters at once); PromiseContainer: a result whose error is context.Canceled awaited through each of the 3 flavours (busy loop = unwinding failure of the await loop at U=6); awaiter concurrent with SetPromise / SetPromise(nil) / SetResult and the resolution of the contained promise; K<=34",
 		Outside: "more than 2 setters / 3 awaiters; CPU time as such ('does not spin' is judged by loop unwinding)",
 	}
 	plans["C12"] = Plan{
 		Quick: []Job{
 			{H: "H_C12_LIFOOrder", K: 34, U: 3, TimeoutSec: 900},
-			{H: "H_C12_PushPushPop", K: 34, U: 3, TimeoutSec: 900},
+			{H: "H_C12_PushPushPop", K: 34, U: 3, Preempt: 2, TimeoutSec: 900},
 			{H: "H_C12_LinkedList", K: 34, U: 3, TimeoutSec: 900},
 		},
 		Thorough: []Job{
 			{H: "H_C12_Conserve", K: 34, U: 3, TimeoutSec: 3000},
+			{H: "H_C12_PushPushPop", K: 34, U: 3, TimeoutSec: 3000, QueryMs: 2400000},
 		},
 		Bounds:  "AtomicLIFO: 2 threads x 2 operations (push;push || pop;pop with the full set of linearizable outcomes enumerated in the harness, 2 pushers || 2 pops, push;pop || push;pop) with every interleaving of the individual atomic loads and compare-and-swaps; CAS retry loops unwound 3 times (unwinding query unsat); LinkedList: Push;Push || PushFront || Pop;PeekTail;Pop; conservation checked by draining at quiescence",
 		Outside: "more than 4 operations / 3 threads; ABA under manual node reuse (nodes are garbage collected)",
@@ -303,6 +310,30 @@ func init() {
 		},
 		Bounds:  "limit 1: one initial job + Enqueue(2 jobs) || Enqueue(1 job) + WaitIdle; limit 2: Enqueue(2) || Enqueue(1) + WatchState observer; unlimited: Enqueue(2) + WaitIdle; jobs of arbitrary relative duration (they finish whenever scheduled); K<=40",
 		Outside: "more than 4 jobs, more than 2 producers",
+	}
+
+	plans["C07"] = Plan{
+		Quick: []Job{
+			{H: "H_C07_RetrySurvivesSetKey", K: 48, U: 3, Prune: true, Preempt: 2, TimeoutSec: 1200},
+			{H: "H_C07_RestartOverlap", K: 40, U: 3, Prune: true, Preempt: 2, TimeoutSec: 1200},
+		},
+		Bounds:  "one key; (a) routine fails once, SetKey(k,false) (symbolic) lands while the retry timer is pending, then the backoff interval passes; (b) two RestartRoutine calls inside one exit latency, then ClearContext; schedules with at most 2 preemptions; K=40-48",
+		Outside: "more than one key, more than 2 restarts",
+	}
+	plans["C09"] = Plan{
+		Quick: []Job{
+			{H: "H_C09_Overlap", K: 30, U: 3, Prune: true, Preempt: 2, TimeoutSec: 900},
+			{H: "H_C09_NilCb", K: 24, U: 3, Prune: true, TimeoutSec: 900},
+		},
+		Bounds:  "one reference + two context replacements inside one resolver latency; AddRef(nil) concurrent with resolution; K<=30",
+		Outside: "more than 3 resolver calls",
+	}
+	plans["C10"] = Plan{
+		Quick: []Job{
+			{H: "H_C10_WaitWithReleased", K: 36, U: 3, Prune: true, TimeoutSec: 900},
+		},
+		Bounds:  "value already resolved; WaitWithReleased concurrent with one invalidation (SetContext); K=36",
+		Outside: "more than one invalidation",
 	}
 
 	boundary := []int{0, 1, 2, 30, 31, 32, 33, 62, 63, 64, 65}
